@@ -62,8 +62,8 @@ func runChild(c jobs.VerifC11Case, raw []byte, dir string) jobs.VerifC11Obs {
 		o.Detail = "fatal error: stack overflow"
 	case strings.Contains(e, "nil pointer dereference"):
 		o.Detail = "panic: nil pointer dereference"
-	case strings.Contains(e, "makeslice"):
-		o.Detail = "panic: makeslice"
+	case strings.Contains(e, "verif: injected panic"):
+		o.Detail = "panic: injected panic in the transform stage"
 	default:
 		if len(e) > 200 {
 			e = e[:200]
